@@ -190,7 +190,9 @@ class Grid(object):
             self.center_(center)
             with torch.no_grad():
                 origin = cat_scalars(origin, num=self.ndim, dtype=self.dtype, device=self.device)
-                if not torch.allclose(origin, self.origin()):
+                # Rounding error of center - affine @ offset scales with center and extent, not with origin
+                atol = 1e-5 * float(self._center.abs().max() + self.extent().sum())
+                if not torch.allclose(origin, self.origin(), atol=atol):
                     raise ValueError("Grid() 'center' and 'origin' are inconsistent")
         # Default align_corners option argument for grid resizing operations
         self._align_corners = bool(align_corners)
